@@ -1,6 +1,6 @@
 (* C25 -- the Gaussian-integer instance used for extraction satisfies the laws assumed by the
-   theorems; a boolean checker for the invariant (to exhibit concrete matrices); and the
-   witnesses refuting the properties that the transcribed code does not have. *)
+   theorems; a boolean checker for the invariant (to exhibit concrete matrices); the inputs
+   that refuted the properties on the unrepaired code, now evaluated on the repaired model. *)
 From SE Require Export C25.CsrJac.
 Local Open Scope N_scope.
 
@@ -37,110 +37,54 @@ Qed.
 Lemma gi_mul_0_l : forall a, emul gi_ops (ezero gi_ops) a = ezero gi_ops.
 Proof. exact (mul_0_l gi_ops gi_semiring). Qed.
 
-(* ---------- a boolean checker for Inv on matrices with at least one stored entry ---------- *)
+(* ---------- a boolean checker for Inv (to exhibit concrete matrices) ---------- *)
 Section Checker.
 Context {E : Type}.
 Definition inv_b (m : csr E) : bool :=
   match is_canonical m with Ok true => true | _ => false end
-  && (nthN (cp m) 0 0 =? 0) && negb (lenN (cj m) =? 0)
   && forallb (fun c => c <? ccol m) (cj m)
   && (crow m <? 2 ^ 31) && (ccol m <? 2 ^ 31) && (crow m * ccol m <? 2 ^ 31) && (lenN (cj m) <? 2 ^ 31).
 
 Lemma inv_b_sound (m : csr E) : inv_b m = true -> Inv m.
 Proof.
   unfold inv_b. rewrite !andb_true_iff.
-  intros (((((((H1 & H2) & H3) & H4) & H5) & H6) & H7) & H8).
+  intros (((((H1 & H4) & H5) & H6) & H7) & H8).
   destruct (is_canonical m) as [[|]| | |] eqn:Hc; try discriminate.
-  apply N.eqb_eq in H2. apply negb_true_iff, N.eqb_neq in H3.
   apply N.ltb_lt in H5, H6, H7, H8.
   split; [|split].
-  - apply is_canonical_sound_guarded; assumption.
+  - apply is_canonical_sound; assumption.
   - intros k Hk. rewrite forallb_forall in H4.
     apply N.ltb_lt. apply H4. unfold nthN. apply nth_In. unfold lenN in Hk. lia.
   - repeat split; assumption.
 Qed.
 End Checker.
 
-(* ---------- witnesses ---------- *)
+(* ---------- the inputs that exposed the defects of the unrepaired code ---------- *)
+(* (conjugate of a non-square matrix, csr_diagonal on the empty matrix / on [[0,1]] / with an empty
+   row, csr_matmat with B wider than A and with an unsorted product, is_canonical with
+   non-monotone row pointers of an empty matrix): the repaired code handles them *)
 Local Open Scope Z_scope.
 Definition g (a : Z) : gi := (a, 0).
 
-(* conjugate: a 1 x 2 matrix comes back as "2 x 1" with the arrays of a 1 x 2 matrix *)
 Definition W_conj : csr gi := Build_csr [0; 1]%N [1]%N [(1, 2)] 1 2.
-
-Theorem conjugate_refuted :
-  exists m : csr gi, Inv m /\
-    (crow (conjugate gi_ops m) <> crow m /\ ~ wf (conjugate gi_ops m) /\ is_canonical (conjugate gi_ops m) = Ok false).
-Proof.
-  exists W_conj. split; [apply inv_b_sound; vm_compute; reflexivity|].
-  split; [vm_compute; discriminate|]. split; [|vm_compute; reflexivity].
-  intros (H & _). vm_compute in H. discriminate.
-Qed.
-
-(* csr_diagonal: out-of-range read on the empty 2 x 2 matrix ... *)
-Theorem diagonal_oob_refuted :
-  exists m : csr gi, Inv m /\ diagonal gi_ops m = ErrOOB 0 0.
-Proof.
-  exists (mk_zero 2 2). split; [apply (mk_zero_Inv gi_ops); vm_compute; reflexivity|].
-  vm_compute. reflexivity.
-Qed.
-
-(* ... an index that wraps below zero on [[0, 1]] ... *)
 Definition W_diag1 : csr gi := Build_csr [0; 1]%N [1]%N [g 1] 1 2.
-Theorem diagonal_underflow_refuted :
-  exists m : csr gi, Inv m /\ diagonal gi_ops m = ErrOOB 2147483647 1.
-Proof.
-  exists W_diag1. split; [apply inv_b_sound; vm_compute; reflexivity|]. vm_compute. reflexivity.
-Qed.
-
-(* ... and a wrong value: the first entry of the next row is taken for the diagonal of an empty row *)
 Definition W_diag2 : csr gi := Build_csr [0; 0; 1]%N [0]%N [g (-2)] 2 1.
-Theorem diagonal_value_refuted :
-  exists m : csr gi, Inv m /\ diagonal gi_ops m = Ok [g (-2)] /\ entry gi_ops m 0 0 = g 0.
-Proof.
-  exists W_diag2. split; [apply inv_b_sound; vm_compute; reflexivity|].
-  split; vm_compute; reflexivity.
-Qed.
-
-(* csr_matmat: temporaries sized by A.col_ are indexed by columns of B ... *)
 Definition W_mmA1 : csr gi := Build_csr [0; 1; 2]%N [0; 0]%N [g 1; g 2] 2 1.
 Definition W_mmB1 : csr gi := Build_csr [0; 2]%N [0; 2]%N [g 3; g 4] 1 3.
-Theorem matmat_oob_refuted :
-  exists A B : csr gi, Inv A /\ Inv B /\ ccol A = crow B /\ matmat gi_ops A B = ErrOOB 2 1.
-Proof.
-  exists W_mmA1, W_mmB1.
-  split; [apply inv_b_sound; vm_compute; reflexivity|].
-  split; [apply inv_b_sound; vm_compute; reflexivity|].
-  split; vm_compute; reflexivity.
-Qed.
-
-(* ... and within the guard the rows of the product come out unsorted, so that get() misses
-   entries that are stored *)
 Definition W_mmA2 : csr gi := Build_csr [0; 2; 3]%N [0; 1; 1]%N [g 1; g 2; g 5] 2 2.
 Definition W_mmB2 : csr gi := Build_csr [0; 2; 4]%N [0; 1; 0; 1]%N [g 3; g 4; g 1; g 1] 2 2.
-Theorem matmat_canonical_refuted :
-  exists A B C : csr gi, Inv A /\ Inv B /\ ccol A = crow B /\ (ccol B <= ccol A)%N /\
-    matmat gi_ops A B = Ok C /\ ~ canon C /\ is_canonical C = Ok false /\
-    entry gi_ops C 0 1 = g 6 /\ get gi_ops C 0 1 = Ok (g 0).
-Proof.
-  exists W_mmA2, W_mmB2. eexists.
-  split; [apply inv_b_sound; vm_compute; reflexivity|].
-  split; [apply inv_b_sound; vm_compute; reflexivity|].
-  split; [reflexivity|]. split; [vm_compute; discriminate|].
-  split; [vm_compute; reflexivity|].
-  split; [|split; [vm_compute; reflexivity|split; vm_compute; reflexivity]].
-  intros (_ & Hs). specialize (Hs 0%N ltac:(vm_compute; reflexivity) 0%N 1%N).
-  vm_compute in Hs. specialize (Hs ltac:(discriminate) eq_refl eq_refl). discriminate.
-Qed.
-
-(* is_canonical: when nothing is stored the row pointers are not inspected *)
 Definition W_canon : csr gi := Build_csr [0; 5; 0]%N [] [] 2 2.
-Theorem is_canonical_sound_refuted :
-  exists m : csr gi, is_canonical m = Ok true /\ ~ wf m /\ get gi_ops m 0 0 = ErrOOB 2 0.
-Proof.
-  exists W_canon. split; [vm_compute; reflexivity|]. split; [|vm_compute; reflexivity].
-  intros (_ & _ & H & _). specialize (H 1%N ltac:(vm_compute; reflexivity)). vm_compute in H. apply H. reflexivity.
-Qed.
+
+Example former_witnesses_repaired :
+  conjugate gi_ops W_conj = Build_csr [0; 1]%N [1]%N [(1, -2)] 1 2 /\
+  diagonal gi_ops (mk_zero 2 2) = Ok [g 0; g 0] /\
+  diagonal gi_ops W_diag1 = Ok [g 0] /\
+  diagonal gi_ops W_diag2 = Ok [g 0] /\
+  matmat gi_ops W_mmA1 W_mmB1 = Ok (Build_csr [0; 2; 4]%N [0; 2; 0; 2]%N [g 3; g 4; g 6; g 8] 2 3) /\
+  matmat gi_ops W_mmA2 W_mmB2 = Ok (Build_csr [0; 2; 4]%N [0; 1; 0; 1]%N [g 5; g 6; g 5; g 5] 2 2) /\
+  is_canonical W_canon = Ok false.
+Proof. vm_compute. repeat split; reflexivity. Qed.
+Local Close Scope Z_scope.
 
 (* every history of set/get operations that starts from the empty matrix CSRMatrix(row, col) *)
 Theorem history_from_zero {E : Type} (Ops : eops E) : zero_test_sound Ops ->
